@@ -77,6 +77,10 @@ CLAIMED = {
    text="5 clients (put, conditional put on the version last seen, delete, get; 6 keys; unique values) under the C01 nemesis; each operation is recorded at the client boundary with call/return ticks, serving node and its term; failed or timed-out operations stay open to the end of the history and retire their client id. porcupine checks every per-key sub-history against a register model in which a get served by a node whose term was still the highest stored term when it returned must see the latest value, and a get served by an already superseded leader may see any earlier committed value but nothing unwritten; every version id must be reported with one value only; final reads on the last leader close the history.",
    note="Per-key partitioning (list / range-scan / delete-range are checked sequentially by C12 and for durability by C01, not for linearizability); checker timeout (60 s) is inconclusive. Conditional puts are modelled on values (version ids and values are 1:1, which is itself checked).",
    technique="recorded client history + porcupine linearizability check (per-key register model with stale-read allowance) under fault injection + race detector"),
+ "C14": dict(engine="kvmodel", level="exploration",
+   text="Three parts on an RF=1 leader (real WAL, Pebble, session manager). (1) Session-centred seeded sequences over few keys (ephemeral puts, take-overs by other sessions and plain puts, deletes, ranges, writes naming closed/unknown sessions, CloseSession, leader restarts into a new term); after every step responses and the raw database (records with owner, session keys, exactly one shadow key per owned record) are compared with the reference model. (2) Cleanup against concurrent writers: the hook between listing a session's keys and the cleanup write runs 1..4 writes of other clients (and of the closing session) on those keys, for CloseSession and for real expiry; answers and final state must match the model for some position of an atomic close in that sequence. (3) Real 2 s sessions with seeded heartbeat schedules and a leader restart, polled every 10 ms: no expiry unless a full timeout without (re)arming can have elapsed, records gone in the same observation as the session, writes naming the expired session refused.",
+   note="Timers are real (no clock is injectable in session.go): the expiry part measures time, with the heartbeat's send time as the conservative bound; late expiry is counted, not judged. Leader change is a restart of the single node into a new term; multi-node failover with sessions in the log is covered by the C06 routes.",
+   technique="reference-model monitor + hook-driven interleaving with an atomicity oracle (all linearization points tried) + timed observation of real session timers"),
 }
 
 NOT_APPLICABLE = {}
